@@ -192,7 +192,11 @@ class Conv:
     def read_body(self, rq_cell, n, label='appbuf'):
         """one application read of up to n bytes; returns (Result value, buffer Buf)"""
         it = self.it
-        rd = self.as_reader(rq_cell)
+        try:
+            rd = self.as_reader(rq_cell)
+        except Blocked as b:
+            self.blocked = b
+            return None, None
         tmp = Buf(self.ctx.fresh_arr(label), n, max(conc(n) or 64, 1) if not isinstance(n, int) else max(n, 1), 'array')
         try:
             r = reader_read(it, rd, whole(tmp))
